@@ -22,8 +22,6 @@ NA = {
 }
 PENDING = {
     "C08": "machinery under construction (datesort pipeline simulation, DESIGN.md section 7b); not claimed until the check exists",
-    "C12": "machinery under construction (DESIGN.md section 5); not claimed until the check exists",
-    "C13": "machinery under construction (DESIGN.md section 4); not claimed until the check exists",
     "C19": "machinery under construction (DESIGN.md section 6); not claimed until the check exists",
     "C20": "machinery under construction (DESIGN.md section 7); not claimed until the check exists",
 }
@@ -37,7 +35,23 @@ CHECKS = {
     },
 }
 
+CHECKS.update({
+    "C12": {
+        "engine": "zone", "category": "exploration", "design_ref": "DESIGN.md section 5",
+        "technique": "deterministic simulation: zone files through a simulated file layer, seeded op sequences on stateful zone handles, reference model of the TZif table as oracle",
+        "text": "Every file of the installed zone database (598 files, every transition -1/0/+1 s, forward and inverse, in seeded order) plus seeded synthetic TZif files (v1/v2/v3, 0..3000 transitions, >255, no-op transitions, v1 block differing from the 64-bit block) are served from the simulated file system; lookups run as op sequences on a handle with history and on a fresh handle, each answer compared with an independent table model; every fifth plan also runs dconv --zone/--from-zone and dzone --next --prev on the same file. Hangs are caught by a CPU budget. Sampling over op orders, exhaustive over the transitions of the installed database.",
+        "note": "Trusted: the 60-line reference TZif reader and civil-from-epoch formatter in sim/models.h. Instants before the first listed transition prime state but their value is not judged (the statement starts at the first transition). The inverse clause is judged on tables whose transitions are at least 26 h apart (all installed zones qualify). Tool-level output is compared only for quarter-hour offsets (%Z resolution) and years 1601..3800.",
+    },
+    "C13": {
+        "engine": "hist", "category": "exploration", "design_ref": "DESIGN.md section 4",
+        "technique": "deterministic simulation: N-input incarnation vs N one-input incarnations under one simulated clock; op sequences on a zone handle vs fresh-handle answers",
+        "text": "Histories: for 37 line-independent invocations of dconv/dadd/dround/ddiff/dgrep/dzone a seeded history of 1..700 values (arguments or stdin lines, one line per read()) must print exactly the concatenation of the one-value runs; values are drawn to prime known state (before-first-transition, index >255, missing fields, junk between good values, >255 searches, reader window reuse in the 64-byte-window build). Handle level: after any op sequence a zone handle and its zif_copy must answer like a freshly opened handle, on all installed zones and synthetic ones.",
+        "note": "Trusted: forked incarnations really start from fresh static state. Histories with clock-dependent values (time without date, year-month) run under a frozen clock, because the moment `now' is first needed legitimately differs between a long run and a one-value run. dzone histories use well-formed dates only (dzone takes anything else for a zone name).",
+    },
+})
+
 ENGINES = {
+    "zoneh": ("sim/eng_zone.cc", "zone engine in history mode: handle with history and its copy vs a fresh handle"),
     "stream": ("sim/eng_stream.cc", "seeded stream/schedule generator + incarnation runner + oracles for sed-mode filters"),
     "zone": ("sim/eng_zone.cc", "op sequences on zone handles over simulated TZif files vs. reference table model and fresh handles"),
     "hist": ("sim/eng_hist.cc", "N-input run vs. N single-input incarnations under a jumping simulated clock"),
@@ -67,7 +81,7 @@ def main():
     for k, v in PENDING.items():
         if k not in CHECKS:
             na[k] = v
-    used = sorted(set(c["engine"] for c in CHECKS.values()))
+    used = sorted(set(c["engine"] for c in CHECKS.values()) | ({"zoneh"} if "C13" in CHECKS else set()))
     m = {
         "version": 1,
         "setup_cmd": "./verif build",
@@ -78,7 +92,7 @@ def main():
             "source_commits": hook_commits,
             "add_only": True,
         },
-        "engines": [{"name": e, "path": ENGINES[e][0], "serves_properties": sorted(p for p, c in CHECKS.items() if c["engine"] == e),
+        "engines": [{"name": e, "path": ENGINES[e][0], "serves_properties": sorted(p for p, c in CHECKS.items() if c["engine"] == e or (e == "zoneh" and p == "C13")),
                      "kind_free_text": ENGINES[e][1]} for e in used],
         "checks": checks,
         "notes": "Deterministic simulation with fault injection; one simrun binary per build variant holds every tool main, the real library and the simulator. See DESIGN.md. known_findings.json lists fixed and open findings.",
